@@ -228,9 +228,8 @@ contract(CONN + '._receive_settings_frame', props=['C11', 'C12', 'C03', 'C04', '
 
 # ---------------------------------------------------------------------------
 def ack_settings_setup(I, loc):
+    # any number of streams: the per-stream loops are verified with the inductive map-loop rule (`visited`)
     conn_setup(I, loc)
-    o = I.heap.get(loc['self'])
-    explicit_keys(I, o.fields['streams'], 2, 'streams', note='loops over self.streams verified for at most 2 streams (settings handlers)')
 
 
 PEND = lambda s, key: '(len(%s._settings[%s]) > 1)' % (s, key)
@@ -245,6 +244,45 @@ def ack_frame_result(I, loc):
     fo = I.heap.get(f)
     flags_add(I, fo.fields['flags'], I.heap.get(fo.fields['flags']), ['ACK'], {}, None)
     return I.heap.alloc(ListObj([f]))
+
+
+# ---------------------------------------------------------------------------
+# The per-stream loops of the settings handlers, for ANY number of streams (inductive rule over `visited`)
+OW = 'self.streams[k].outbound_flow_control_window'
+modular(CONN + '._flow_control_change_from_settings')
+contract(CONN + '._flow_control_change_from_settings', props=['C03', 'C12', 'C11'],
+    args={'old_value': 'int', 'new_value': 'int'}, setup=conn_setup, requires=['GI(self)'],
+    let={'d': '(new_value - old_value)'},
+    modifies=['maparr:self.streams:outbound_flow_control_window'],
+    ensures=[('every-stream-window-shifted-by-the-delta', 'all(%s == old(%s) + d for k in self.streams)' % (OW, OW), ['C03', 'C11']),
+             ('stream-windows-in-range', 'all(%s <= MAXWIN for k in self.streams)' % OW, ['C03', 'C12'])],
+    raises=[dict(exc='FlowControlError', when='any(%s + d > MAXWIN for k in self.streams)' % OW, iff=True, props=['C12', 'C03', 'C18'],
+                 ensures=[('code', 'exc.error_code == FLOW_CONTROL_ERROR', ['C18', 'C12'])])],
+    on_raise=[('windows-shifted-or-kept-never-out-of-range', 'all((%s == old(%s) or %s == old(%s) + d) and %s <= MAXWIN for k in self.streams)' % (OW, OW, OW, OW, OW), ['C03', 'C12'])],
+    loops={'self.streams.values()': dict(
+        invariant=[('visited-shifted-others-kept', 'all(%s == old(%s) + (d if (k in visited) else 0) for k in self.streams)' % (OW, OW)),
+                   ('visited-in-range', 'all(implies(k in visited, %s <= MAXWIN) for k in self.streams)' % OW)],
+        modifies=['maparr:self.streams:outbound_flow_control_window'])},
+    canary='all(%s == old(%s) for k in self.streams)' % (OW, OW))
+
+IWC = 'self.streams[k]._inbound_window_manager.current_window_size'
+IWM = 'self.streams[k]._inbound_window_manager.max_window_size'
+modular(CONN + '._inbound_flow_control_change_from_settings')
+contract(CONN + '._inbound_flow_control_change_from_settings', props=['C04', 'C05', 'C11'],
+    args={'old_value': 'int', 'new_value': 'int'}, setup=conn_setup, requires=['GI(self)'],
+    let={'d': '(new_value - old_value)'},
+    modifies=['maparr:self.streams:_inbound_window_manager.current_window_size', 'maparr:self.streams:_inbound_window_manager.max_window_size'],
+    ensures=[('every-stream-inbound-window-shifted', 'all(%s == old(%s) + d for k in self.streams)' % (IWC, IWC), ['C04', 'C11']),
+             ('every-stream-inbound-maximum-shifted', 'all(%s == old(%s) + d for k in self.streams)' % (IWM, IWM), ['C04', 'C05', 'C11']),
+             ('inbound-windows-in-range', 'all(%s <= MAXWIN for k in self.streams)' % IWC, ['C04'])],
+    raises=[dict(exc='FlowControlError', when='any(%s + d > MAXWIN for k in self.streams)' % IWC, iff=True, props=['C04', 'C18'],
+                 ensures=[('code', 'exc.error_code == FLOW_CONTROL_ERROR', ['C18'])])],
+    on_raise=[('windows-shifted-in-range-or-kept', 'all(%s == old(%s) or (%s == old(%s) + d and %s <= MAXWIN) for k in self.streams)' % (IWC, IWC, IWC, IWC, IWC), ['C04'])],
+    loops={'self.streams.values()': dict(
+        invariant=[('visited-shifted-others-kept', 'all(%s == old(%s) + (d if (k in visited) else 0) and %s == old(%s) + (d if (k in visited) else 0) for k in self.streams)' % (IWC, IWC, IWM, IWM)),
+                   ('visited-in-range', 'all(implies(k in visited, %s <= MAXWIN) for k in self.streams)' % IWC)],
+        modifies=['maparr:self.streams:_inbound_window_manager.current_window_size', 'maparr:self.streams:_inbound_window_manager.max_window_size'])},
+    canary='all(%s == old(%s) for k in self.streams)' % (IWC, IWC))
 
 
 modular(CONN + '._acknowledge_settings')
@@ -275,6 +313,9 @@ contract(CONN + '._acknowledge_settings', props=['C11', 'C03', 'C02', 'C13', 'C1
                  ensures=[('code', 'exc.error_code == FLOW_CONTROL_ERROR', ['C18', 'C12'])]),
             dict(exc='ProtocolError', when='not conn_accepts(cst, CI_SEND_SETTINGS)')],
     on_raise=[('frame-size-untouched-on-failure', 'self.max_outbound_frame_size == old(self.max_outbound_frame_size)', ['C18'])],
+    loops={'self.streams.values()': dict(
+        invariant=[('visited-streams-got-the-frame-size', 'all(self.streams[k].max_outbound_frame_size == (setting.new_value if (k in visited) else old(self.streams[k].max_outbound_frame_size)) for k in self.streams)')],
+        modifies=['maparr:self.streams:max_outbound_frame_size'])},
     canary='len(result) == 0')
 
 
